@@ -29,6 +29,7 @@ package main
 
 import (
 	"fmt"
+	"math"
 	"strings"
 )
 
@@ -269,6 +270,24 @@ func genNilFamily(r *rng) (na, nb *node, note string, equal bool) {
 // as the single differing leaf of otherwise equal containers.  Both questions are asked of every such pair
 // (a ranking that merges them while the comparison does not is a disagreement of the two).
 func genNeighbourFamily(r *rng) (na, nb *node, note string, equal bool) {
+	if r.chance(1, 5) {
+		// the opposite corner: two integers so far apart that their difference does not fit the type
+		kind := []string{"int", "int64"}[r.intn(2)]
+		lows := []int64{math.MinInt64, math.MinInt64 + 1, -(1 << 62), -1}
+		highs := []int64{math.MaxInt64, math.MaxInt64 - 1, 1 << 62, 1, 2}
+		na = &node{kind: kind, prim: lows[r.intn(len(lows))]}
+		nb = &node{kind: kind, prim: highs[r.intn(len(highs))]}
+		if r.chance(1, 2) {
+			na, nb = nb, na
+		}
+		note = "extremes:" + kind
+		for lvl := 0; lvl < 2 && r.chance(1, 3); lvl++ {
+			var w string
+			na, nb, w = wrapPair(r, na, nb)
+			note += " in " + w
+		}
+		return na, nb, note, false
+	}
 	kind := []string{"int", "int64", "int64", "uint", "uint64", "float64", "string", "int16", "rune"}[r.intn(9)]
 	var x *node
 	for try := 0; try < 20; try++ {
